@@ -22,7 +22,8 @@ STMTS = [
     "while e c 1; do e b 0; done < /dev/null > out.f",
     "cat <<< \"here string $x\"",
     "cat <(e ps 0) > /dev/null",
-    "e po 0 > >(cat > out.f); msleep 60",
+    # (the consumer signals when it is done: a fixed sleep is not enough on a loaded machine, and the file it writes is its own)
+    "e po 0 > >(cat > po.f; : > po.done); k=0; while [ ! -f po.done ] && [ $k -lt 400 ]; do msleep 10; k=$((k+1)); done",
     "case x in a|b) e c1 0;; x) e c2 0;& y) e c3 1;;& *) e c4 0;; esac",
     "case $1 in p*) e cp 0 ;; *) e cn 1 ;; esac",
     "! e n 1",
@@ -94,7 +95,7 @@ def gen_body(rng):
     return "f() {\n%s\n} >> fbody.f 2>&1 < /dev/null" % body
 
 
-TRACE = ('f p1 "a b"\necho "@rc $?"\nwait\nfor o in out.f err.f fbody.f fd3.f out5.f; do [ -f $o ] && { echo "@file $o"; cat $o; }; done\necho "@end"\n')
+TRACE = ('f p1 "a b"\necho "@rc $?"\nwait\nfor o in out.f err.f fbody.f fd3.f out5.f po.f; do [ -f $o ] && { echo "@file $o"; cat $o; }; done\necho "@end"\n')
 
 
 def run_in(shell, script, extra_env=None):
